@@ -470,7 +470,7 @@ func runSave(c *core.Ctx) {
 				case *ssa.Store:
 					if isIndexPtr(x.Addr) {
 						// whole-index store of a value produced by a shared store function (the collector)
-						if call, _ := an.CallOf(an.Origin(x.Val)); call != nil {
+						if call, _ := an.CallOf(an.Origin(fieldBase(x.Val))); call != nil {
 							if sc := call.Call.StaticCallee(); sc != nil && r.FamilyOfFunc(sc) == nil && core.FuncPkgPath(sc) == r.StorePath {
 								// …that works on an index it is given (a function that only builds a fresh, empty index is a constructor)
 								takesIndex := false
@@ -989,6 +989,26 @@ func init() {
 					if len(ss) == 0 {
 						if u, ok := v.(*ssa.UnOp); ok {
 							ss = structStores(u)
+						}
+					}
+					if len(ss) == 0 {
+						// built by a function of the package: every descriptor it returns is built without annotations
+						if hr := an.HelperReturns(an.Origin(v), func(h *ssa.Function) bool { return core.FuncPkgPath(h) == r.TypesPath }); len(hr) > 0 {
+							bare := true
+							for _, x := range hr {
+								hs := structStores(an.Origin(x.Val))
+								if len(hs) == 0 {
+									if u, ok := x.Val.(*ssa.UnOp); ok {
+										hs = structStores(u)
+									}
+								}
+								if _, has := hs["Annotations"]; has || len(hs) == 0 {
+									bare = false
+								}
+							}
+							if bare {
+								return
+							}
 						}
 					}
 					if _, has := ss["Annotations"]; has || len(ss) == 0 {
@@ -1538,10 +1558,11 @@ func init() {
 	register(&Rule{ID: "TS-PRUNE-TRIGGER", Floor: 1,
 		Doc: "an insertion beyond the count limit starts the count pruner: in the cache's insert function the start of the pruner (go statement or call of a cache method that deletes entries) depends only on the count comparison (limit fields and len(entries)); a further condition on a boolean ‘pruner busy’ field is accepted only if the pruner clears that field on every path to each of its returns (or in a deferred function) — a flag left set by an early return disables count pruning for good",
 		Run: func(c *core.Ctx) {
+			// the field of the cache a value is read from; limits may be grouped in a sub-struct (c.lim.maxCount)
 			fieldName := func(v ssa.Value) (string, bool) {
 				_, p := accessPath(an.Strip(v))
-				if len(p) == 1 {
-					return p[0], true
+				if len(p) >= 1 && len(p) <= 2 {
+					return p[len(p)-1], true
 				}
 				return "", false
 			}
